@@ -620,6 +620,16 @@ pub fn gen_case(seed: u64, shard: u64, run: u64, t: &Tier) -> (Case, Vec<Relatio
     if t.stl_every > 0 && run % t.stl_every as u64 == 0 {
         crate::gen_stl::use_rx160(&mut cell);
     }
+    // the kinematics behind the shape is any `Kinematics`: now and then a parallelogram linkage
+    // (usual 1:1 coupling of J3 to J2, and unusual ratios / joints) around the stack
+    {
+        let mut pk = Rng::derive(seed, shard, run, "c10.parallelogram");
+        if pk.chance(0.12) {
+            let scaling = *pk.pick(&[1.0, 1.0, 0.5, -1.0, 2.0, 0.25]);
+            let (driven, coupled) = if pk.chance(0.7) { (1usize, 2usize) } else { *pk.pick(&[(2usize, 1usize), (1, 4), (0, 3), (3, 5)]) };
+            cell.parallelogram = Some((scaling, driven, coupled));
+        }
+    }
     let n_q = w.range_usize(1, 5);
     let mut qs: Vec<[f64; 6]> = (0..n_q).map(|_| gen::gen_posture(&mut w, &None)).collect();
     // pre-decide how many environment bodies there will be so that the safety table can name them
@@ -661,7 +671,32 @@ pub fn gen_case(seed: u64, shard: u64, run: u64, t: &Tier) -> (Case, Vec<Relatio
         // half of the time the SAME table retuned (same keys, same counts, other values), with
         // every body staying where it is
         let same_shape = knobs.chance(0.5);
-        if same_shape {
+        let mut lifted = false;
+        if same_shape && knobs.chance(0.5) {
+            // guided: in the first phase exactly the pairs that make some posture collide are
+            // exempt; in the second the exemption is lifted by overwriting the same keys
+            let oc = OracleCell::new(&cell);
+            for q in qs.iter() {
+                let b = oracle::brute_q(&oc, q, &cell.safety);
+                let pairs = b.definite();
+                if pairs.is_empty() || pairs.len() > 4 {
+                    continue;
+                }
+                let (mut first, mut second) = (cell.safety.clone(), cell.safety.clone());
+                for (a, bb) in pairs {
+                    let d = cell.safety.distance(a, bb);
+                    first.special.retain(|s| !((s.0 as usize, s.1 as usize) == (a, bb) || (s.0 as usize, s.1 as usize) == (bb, a)));
+                    second.special.retain(|s| !((s.0 as usize, s.1 as usize) == (a, bb) || (s.0 as usize, s.1 as usize) == (bb, a)));
+                    first.special.push((a as u16, bb as u16, NEVER));
+                    second.special.push((a as u16, bb as u16, d));
+                }
+                cell.safety = first;
+                t2 = second;
+                lifted = true;
+                break;
+            }
+        }
+        if same_shape && !lifted {
             t2 = gen::retune_safety(&mut w, &cell.safety);
         }
         Some(Reconf { safety: t2, drop_last_env: !same_shape && knobs.chance(0.4) })
